@@ -1188,7 +1188,9 @@ fn check_apx_t<T: Pt>(c: &ApxCase, obs: &mut Obs) -> Check {
     let mut first_fail: Option<Fail> = None;
     let mut stats: Option<TreeStats> = None;
     let mut nodes: Vec<Node> = Vec::new();
-    'search: for bound in 0..=MAX_BOUND {
+    // the anchored bound first: a log that it explains is not attributed to another bound that happens to fit as well
+    let anchored = 10 + (c.pts.len() as u32).ilog2();
+    'search: for bound in std::iter::once(anchored).chain((0..=MAX_BOUND).filter(|b| *b != anchored)) {
         for consult in [false, true] {
             if simulate(&log, bound, consult, want, None) {
                 nodes.clear();
@@ -1233,6 +1235,16 @@ fn check_apx_t<T: Pt>(c: &ApxCase, obs: &mut Obs) -> Check {
         _ => "pieces:>=4096",
     });
     if st.at_bound > 0 {
+        // the property's anchor names the bound: "recursive bisection with depth bound 10+log2(len)", len = number of
+        // control points (floor of the logarithm, as the source computes it)
+        let len = c.pts.len() as u32;
+        let want = 10 + len.ilog2();
+        ensure!(
+            st.bound == want,
+            "depth-bound-differs-from-10+log2(len)",
+            "a piece that did not meet the criterion was flattened at depth {} on a spline of {len} control points; the depth bound is 10 + floor(log2({len})) = {want}",
+            st.bound
+        );
         obs.class("some piece stopped by the depth bound");
         obs.class(match st.bound {
             12 => "depth-bound-observed:12",
@@ -1262,7 +1274,7 @@ pub fn run(cx: &mut Ctx) {
     cx.assume("control coordinates are finite with magnitude in [~1e-9, 1e3]; tolerances are relative to the largest |control coordinate| of the same component (all operations are component-wise)");
     cx.assume("for NaN parameters only 'does not panic' is asserted; +-inf count as beyond the ends");
     cx.assume("spline tangent: the derivative of the selected segment w.r.t. its local parameter or w.r.t. the spline parameter (x n) are both accepted; at a join either neighbouring segment");
-    cx.assume("approximate: the depth bound is treated as unknown (<= 24: deeper f32 parameters cannot be strictly increasing); halt may or may not be consulted at the bound; the halt argument is eval(mid) - midpoint of the chord, as documented");
+    cx.assume("approximate: the tree is reconstructed with the depth bound as an unknown (<= 24), and whenever a piece that did not meet the criterion was flattened the bound found must be 10 + floor(log2(number of control points)) (named in the property's anchor); halt may or may not be consulted at the bound; the halt argument is eval(mid) - midpoint of the chord, as documented");
     cx.extra.insert(
         "tolerances_relative_to_scale".into(),
         json!({"eval": EVAL_REL, "bbox": BBOX_REL, "tangent": TAN_REL, "tangent_vs_finite_difference": FD_REL, "spline_eval": SPL_REL, "spline_tangent": SPL_TAN_REL, "halt_argument": ERR_REL}),
